@@ -23,6 +23,7 @@ type SpecEnv struct {
 	depth int
 	facts *[]string
 	uses  *[]idxUse
+	inOld bool
 }
 
 type idxUse struct {
@@ -99,6 +100,14 @@ func (env *SpecEnv) lookupLocal(name string) *Val {
 	}
 	e := env.e
 	at := env.at
+	if env.inOld {
+		// inside old(): a parameter name denotes its value on function entry
+		for _, p := range fr.fn.Params {
+			if p.Name() == name {
+				return fr.vals[p]
+			}
+		}
+	}
 	if at != nil {
 		for _, in := range at.Instrs {
 			phi, ok := in.(*ssa.Phi)
@@ -211,6 +220,12 @@ func (env *SpecEnv) pkgScopeLookup(pkgPath, name string) *Val {
 		if e.w.isSentinel(g) {
 			return e.sentinelVal(env.cur, g)
 		}
+		if c := e.w.constGlobal(g); c != nil {
+			return e.constVal(c)
+		}
+		if e.w.neverStored(g) {
+			return e.zero(o.Type())
+		}
 		addr := e.w.globalAddr(g)
 		return env.load(addr, o.Type(), "")
 	}
@@ -308,6 +323,7 @@ func (env *SpecEnv) eval(x *SExpr) *Val {
 			env.fail("old() not available here")
 		}
 		n := env.with(env.old)
+		n.inOld = true
 		return n.eval(x.Args[0])
 	case "un":
 		switch x.Name {
